@@ -2,6 +2,11 @@ module github.com/evanphx/json-patch/v5/zverif
 
 go 1.18
 
-require github.com/evanphx/json-patch/v5 v5.0.0
+require (
+	github.com/evanphx/json-patch v0.0.0
+	github.com/evanphx/json-patch/v5 v5.0.0
+)
 
 replace github.com/evanphx/json-patch/v5 => /repo/v5
+
+replace github.com/evanphx/json-patch => /verif/build/legacy
